@@ -337,3 +337,27 @@ def with_coords(spec, pos, vel=None):
     if vel is not None:
         out["vel"] = np.asarray(vel, float).tolist()
     return out
+
+
+# ---------------------------------------------------------------- memory layouts of coordinate arrays
+ARRAY_LAYOUTS = ["C", "C", "F", "strided", "transposed", "readonly"]
+
+
+def as_layout(arr, style):
+    """An ndarray equal to `arr` (same shape, dtype float64, same values) with another memory layout:
+    C-contiguous, Fortran-ordered, a strided view into a larger array, the transpose of a (3, N) array, or a
+    read-only C array (a function that promises not to modify its input never needs to write to it)."""
+    import numpy as np
+    a = np.array(arr, dtype=float)
+    if style == "F":
+        return np.asfortranarray(a)
+    if style == "strided" and a.ndim == 2:
+        big = np.full((2 * a.shape[0] + 1, a.shape[1] + 2), 123.25)
+        big[1::2, 1:-1] = a
+        return big[1::2, 1:-1]
+    if style == "transposed" and a.ndim == 2:
+        return np.ascontiguousarray(a.T).T
+    if style == "readonly":
+        a.setflags(write=False)
+        return a
+    return a
